@@ -54,6 +54,7 @@ type TagRef {
   artist: String
 }
 scalar Json
+directive @tune(opts: [String] = ["a", "b"], r: Range = {lo: 1}, n: Int = 3) on FIELD | FRAGMENT_SPREAD | INLINE_FRAGMENT | QUERY | MUTATION
 type Mutation {
   rename(old: String!, new: String!): Keeper
 }
